@@ -2,6 +2,7 @@ package drivers
 
 import (
 	"encoding/json"
+	"strings"
 	"sync"
 	"time"
 
@@ -178,6 +179,17 @@ func Mux(a Args) error {
 	if err != nil {
 		return err
 	}
+	// a user dictionary whose commands have short names of three letters and of one (the embedded ones all
+	// have two), loaded on top of the default dictionary in this process only
+	const extra = `<?xml version="1.0" encoding="UTF-8"?><diameter><application id="4242" type="auth" name="Verif-Names">
+<command code="901" short="LCS" name="Long-Short"><request><rule avp="Origin-Host" required="false"/></request><answer><rule avp="Origin-Host" required="false"/></answer></command>
+<command code="902" short="Q" name="One-Letter"><request><rule avp="Origin-Host" required="false"/></request><answer><rule avp="Origin-Host" required="false"/></answer></command>
+<command code="903" short="LC" name="Two-Letters"><request><rule avp="Origin-Host" required="false"/></request><answer><rule avp="Origin-Host" required="false"/></answer></command>
+</application></diameter>`
+	if err := dict.Default.Load(strings.NewReader(extra)); err != nil {
+		return err
+	}
+	sn[[2]uint32{4242, 901}], sn[[2]uint32{4242, 902}], sn[[2]uint32{4242, 903}] = "LCS", "Q", "LC"
 	id := 0
 	return ReadLines(a.Cases, func(line []byte) error {
 		var c muxCase
